@@ -394,6 +394,11 @@ func C14(r *vf.Run) {
 					}
 					visited = pcs
 					target = pcs[[]int{0, len(pcs) - 1, g.Intn(len(pcs)), g.Intn(len(pcs))}[g.Intn(4)]]
+					if g.Intn(6) == 0 {
+						// a target that is no address at all (the parameter is 32 bits wide; "run for the budget"
+						// is spelled $FFFFFFFF by some callers): its low 24 bits are a place the program visits
+						target |= uint32(1+g.Intn(255)) << 24
+					}
 					if g.Intn(3) == 0 {
 						for h := 1 + g.Intn(3); h > 0; h-- {
 							plan = append(plan, hookPlan{at: pcs[g.Intn(len(pcs))], kind: 1 + g.Intn(4), to: 0})
